@@ -1,4 +1,5 @@
 import S3V.Base.Bytes
+import S3V.Base.Utf8
 /-!
 # Spec: an AWS event-stream frame decoder and the S3 Select reading of the decoded messages
 
@@ -199,6 +200,22 @@ def interpret (m : DecodedMessage) : Option SelEvent :=
       | some c, some msg => if m.headers.length = 3 ∧ m.payload = [] then some (.error c msg) else none
       | _, _ => none
     else none
+
+/-! ## over-long error text
+
+A string header value holds at most 65 535 bytes (u16 length). An error code or message that is longer can
+only be carried cut short; what a client may then legitimately recover is the longest prefix of at most
+65 535 bytes that is still well-formed UTF-8 (a UTF-8 sequence is at most 4 bytes long, so that prefix is one
+of the four candidates of length 65 535 … 65 532). Text that fits must arrive unchanged. -/
+
+def maxHeaderValue : Nat := 65535
+
+/-- the text a client should recover for an error code / message `orig` (well-formed UTF-8) -/
+def expectedHeaderText (orig : Bytes) : Option Bytes :=
+  if orig.length ≤ maxHeaderValue then some orig
+  else
+    ([maxHeaderValue, maxHeaderValue - 1, maxHeaderValue - 2, maxHeaderValue - 3].find?
+      fun k => utf8Valid (orig.take k)).map fun k => orig.take k
 
 /-! ## the documented header sets, as a table -/
 
